@@ -7,6 +7,8 @@ of harness/props/C19.py.)
 Python-level loop / one call of a recursive parser function.
 -/
 import TonVerif.Proofs.Cost
+import TonVerif.Proofs.CostTl
+import TonVerif.Generated.TlCostTable
 
 namespace TonVerif.Properties.C19
 open TonVerif TonVerif.Model TonVerif.Model.Cost TonVerif.Proofs.Cost
@@ -34,6 +36,23 @@ theorem c19_serialize_poly (g : Dag) (hg : g.WF) (root : Nat) (hr : root < g.len
     toBocSteps g root hasIdx hasCrc hasCache ≤ 5 * (g.length + edges g) + 1 + (toBoc g root hasIdx hasCrc hasCache).bytes :=
   toBoc_steps_le g hg root hr hasIdx hasCrc hasCache
 
+/-- the quantity the measured tie of construction uses (`lines ≤ 60·hashWork + 100`) is linear: `hashWork = 4·(n + e)` -/
+theorem c19_hash_work_closed (g : Dag) : hashWork g = 4 * (g.length + edges g) := hashWork_eq g
+
+/-- CONSTRUCTING / HASHING a DAG: `Cell.__init__` (`resolve_mask` + `calculate_hashes`) is called once per distinct cell,
+children first, and reads the referenced cells' cached masks / depths / hashes (it never descends).  With `lv v ≤ 4`
+hashes per cell (level ≤ 3): loop iterations `≤ 4n + 9e` (`≤ 9/4 · hashWork`), bytes fed to SHA-256
+`≤ 4·(descriptor+data bytes) + 136·(n + e)` — each hash is over `≤ 2 + 128 + 4·34` bytes.  Shared sub-DAGs cost nothing
+extra: the sums range over distinct cells and references, not over paths (contrast `rehashCalls`, below). -/
+theorem c19_build_linear (lv : Nat → Nat) (g : Dag) (h : ∀ v, lv v ≤ 4) :
+    buildSteps lv g ≤ 4 * g.length + 9 * edges g ∧
+    buildBytes lv g ≤ 4 * cellBytes g + 136 * (g.length + edges g) ∧
+    4 * buildSteps lv g ≤ 9 * hashWork g := by
+  have h1 := buildSteps_le lv g h
+  have h2 := buildBytes_le lv g h
+  have h3 := hashWork_eq g
+  exact ⟨h1, h2, by omega⟩
+
 /-- `Cell.from_boc(bs)` for EVERY byte string: the three loops of `Boc.deserialize` (over `cells_num`, reversed
 `cells_num`, `root_list`) run at most `len(bs) + 1` iterations in total — a count field larger than the bytes that
 follow is cut by a length check or by running out of bytes. -/
@@ -50,6 +69,37 @@ size of the UNFOLDED tree, i.e. of the parser's output (a DAG-compressed diction
 theorem c19_dict_parse (g : DDag) (fuel root : Nat) (keyLen : Int) :
     (dictCalls g fuel root keyLen).steps ≤ 2 * treeSize g fuel root := dictCalls_le g fuel root keyLen
 
+/-- dictionary parsing, OUTPUT-BOUNDED reading made literal: a parse that returns made exactly `4·(entries + stops) − 2`
+`parse` + `deserialize_hashmap_node` calls, where `entries` = leaves reached (= keys stored in the result) and `stops` =
+edges ending in a non-ordinary (pruned / library) cell: the call tree is a full binary tree over them.  The work is
+linear in what the parser produces plus the pruned edges it meets — NOT in the size of the input bag: forks that
+reference the same child twice unfold (`sharedDict`: 4 cells, 8 entries), and over a pruned bottom the result is empty
+while `stops = 2^depth` (`sharedPruned`). -/
+theorem c19_dict_output (g : DDag) (fuel root : Nat) (keyLen : Int) (s : Nat)
+    (h : dictCalls g fuel root keyLen = .done s) :
+    s + 2 = 4 * ((dictOut g fuel root keyLen).1 + (dictOut g fuel root keyLen).2) :=
+  dictCalls_out g fuel root keyLen s h
+
+/-- … and ALL steps of the dictionary parser (calls + iterations of the unary-label loop) are at most `1 + B` times the
+calls when no cell has more than `B` bits (`B ≤ 1023`), with the same outcome (returned / raised): for a parse that
+returns, steps `≤ (1 + B)·(4·(entries + stops) − 2)`. -/
+theorem c19_dict_total (g : DDag) (B : Nat) (hB : ∀ nd ∈ g, nd.bits.length ≤ B) (fuel root : Nat) (keyLen : Int) (s : Nat)
+    (h : dictParse g fuel root keyLen = .done s) :
+    s + 2 * (1 + B) ≤ (1 + B) * (4 * ((dictOut g fuel root keyLen).1 + (dictOut g fuel root keyLen).2)) := by
+  have hr := dictParse_rel g B hB fuel root keyLen
+  rw [h] at hr
+  cases hc : dictCalls g fuel root keyLen with
+  | oof => rw [hc] at hr; exact hr.elim
+  | raised c => rw [hc] at hr; exact hr.elim
+  | done c =>
+    rw [hc] at hr
+    simp only [DRel] at hr
+    have ho := dictCalls_out g fuel root keyLen c hc
+    rw [← ho]
+    have e : (1 + B) * (c + 2) = c * (1 + B) + 2 * (1 + B) := by
+      rw [Nat.mul_comm, Nat.add_mul]
+    omega
+
 /-- the `deserialize_unary` loop of a label never runs more iterations than the cell has bits (≤ 1023) -/
 theorem c19_dict_label (bits : Bits) (m : Int) : (readLabel bits m).2 ≤ bits.length := readLabel_iters bits m
 
@@ -61,26 +111,62 @@ theorem c19_tl_reparse_loop (r : Bytes → Tl.Res) (hr : ∀ b, r b ≠ .oof) (h
   reparse_no_oof r hr h0 c byteLen _ j s (Nat.le_refl _)
 
 /-- TL vector loop with the guard of the F16 repair: a declared length larger than the remaining input raises before
-the first iteration, so a vector field iterates at most `len(data) - i - 4` times.  (The loop as coded today has no
-guard: `Tl.vecItersUnfixed declared = declared` — 2^22 iterations over 0 bytes; known finding F16.) -/
+the first iteration, so a vector field iterates at most `len(data) - i - 4` times.  (Before the repair 110bf4a the loop
+had no guard: `Tl.vecItersUnfixed declared = declared` — 2^22 iterations over 0 bytes, F16.) -/
 theorem c19_tl_vector_guard (rec : Bytes → Option Nat → Tl.Res) (data : Bytes) (i : Nat) (elem : Option Nat)
     (h : data.length < i + 4 + Tl.natOfLE (sl data i (i + 4))) :
     Tl.fieldStep rec data i (.vec elem) = .raised 0 true := by
   simp [Tl.fieldStep, h]
 
-/-
-FULL STATEMENT (not proved):  c19_tl_fuel :
-  ∀ tbl (ranked: the bare-type references of tbl are acyclic) data mode,
-    Tl.deser tbl ((data.length / 4 + 2) * (tbl.length + 2)) data mode ≠ .oof   ∧   steps ≤ K(tbl) · (data.length + 1).
-Proved below: every `oof` of the model is an exhaustion of the recursion-DEPTH fuel — none of the loops (fields,
-vector, re-parse) can run out of its own fuel, for every table and every input.  Missing: the bound on the nesting depth
-(each boxed level consumes ≥ 4 bytes, bare levels are bounded by the rank) and the summation over the call tree.  The
-driver never reported `oof` with the fuel above on any generated input (sampled).
--/
-/-- see the comment above -/
+/-- every `oof` (out of fuel) of the TL model is an exhaustion of the recursion-DEPTH fuel — none of the loops (fields,
+vector, re-parse) can run out of its own fuel, for every table with non-empty ids and every input.  (Superseded by
+`c19_tl_total`, which also bounds the depth; kept because it needs no side condition on bare references.) -/
 theorem c19_tl_fuel_partial (tbl : Tl.Table) (h : IdsNonempty tbl) (f : Nat) (data : Bytes) (mode : Option Nat)
     (ho : Tl.deser tbl (f + 1) data mode = .oof) : ∃ b m, Tl.deser tbl f b m = .oof :=
   oof_from_depth tbl h f data mode ho
+
+/-- TOTAL WORK of `TlSchemas.deserialize(data)` / `deserialize(data, False, schema.args)`: for EVERY schema table whose
+constructor ids have 4 bytes (`Ids4`) and whose bare references form no cycle (`NoBareCycle tbl R`: chains of at most
+`R` bare references; both decidable), EVERY byte string and boxed or bare start, the model with recursion-depth fuel
+`tlFuel R len = (len/4 + 1)(R + 2)` (or more) never runs out of fuel, and the number of steps (calls + field-loop +
+vector-loop + re-parse-loop iterations) is at most `tlK tbl R · (len + 1)²` — a function of the input LENGTH and of a
+table constant only, never of a declared vector length or bytes length read from the input.
+(Depth: a recognised boxed object consumed its 4-byte id; between two boxed levels there are ≤ R+1 bare levels.  Sum:
+every call does ≤ a + w·(bytes it consumed) steps with `w = (len+1)·K`; vectors are paid by their 4-byte length word
+because the guard of the F16 repair bounds the declared length by the remaining bytes; the re-parse loop consumes
+disjoint parts of the content.  The square is real: elements of a vector may consume nothing, see `quadTable` below.) -/
+theorem c19_tl_total (tbl : Tl.Table) (hid : Tl.Ids4 tbl) (R : Nat) (hc : Tl.NoBareCycle tbl R) (data : Bytes)
+    (mode : Option Nat) (f : Nat) (hf : Tl.tlFuel R data.length ≤ f) :
+    Tl.deser tbl f data mode ≠ .oof ∧
+    (Tl.deser tbl f data mode).steps ≤ Tl.tlK tbl R * ((data.length + 1) * (data.length + 1)) :=
+  TonVerif.Proofs.CostTl.deser_total tbl hid R hc data mode f hf
+
+/-- the side conditions hold for the schema table bundled with the library (829 rows, regenerated from
+`pytoniq_core/tl/schemas/*.tl` on every run): ids have ≥ 4 bytes, bare references nest at most 4 deep, no cycle. -/
+theorem c19_tl_bundled_table : Tl.Ids4 Generated.TlCost.table ∧ Tl.NoBareCycle Generated.TlCost.table 4 := by
+  decide +kernel
+
+/-- … so for the bundled table the bound holds for every byte string, unconditionally. -/
+theorem c19_tl_total_bundled (data : Bytes) (mode : Option Nat) :
+    Tl.deser Generated.TlCost.table (Tl.tlFuel 4 data.length) data mode ≠ .oof ∧
+    (Tl.deser Generated.TlCost.table (Tl.tlFuel 4 data.length) data mode).steps ≤
+      Tl.tlK Generated.TlCost.table 4 * ((data.length + 1) * (data.length + 1)) :=
+  c19_tl_total _ c19_tl_bundled_table.1 4 c19_tl_bundled_table.2 data mode _ (Nat.le_refl _)
+
+/-- the table `a x:a = A;` (a bare reference to itself) -/
+def cyclicTable : Tl.Table := [⟨[1, 2, 3, 4], [⟨none, .sub (some 0)⟩]⟩]
+
+/-- the side condition `NoBareCycle` is necessary: on a table with a bare cycle the bare parse of the EMPTY input never
+returns, whatever the fuel (in Python: unbounded recursion, ended by RecursionError).  Only reachable with a
+user-supplied table — the bundled one has no such cycle (`c19_tl_bundled_table`). -/
+theorem c19_tl_bare_cycle_diverges (f : Nat) : Tl.deser cyclicTable f [] (some 0) = .oof := by
+  induction f with
+  | zero => rfl
+  | succ n ih =>
+    simp only [Tl.deser, Tl.deserLevel, Tl.fieldsOf, cyclicTable, List.getElem?_cons_zero, Tl.bareFields, List.map_cons,
+      List.map_nil, Tl.fieldsLoop, Tl.fieldStep, List.drop_nil]
+    simp only [cyclicTable] at ih
+    rw [ih]
 
 /-! ## Non-vacuity and concrete instances -/
 
@@ -104,6 +190,12 @@ example : diamond.WF := by
 example : orderVisits chain3 3 = 11 ∧ 1 + chain3.length + edges chain3 = 11 ∧ oldOrderCalls chain3 4 3 = 15 := by decide
 example : (orderRun diamond 3).post = [3, 1, 2, 0] ∧ orderVisits diamond 3 = 9 := by decide
 
+/-- construction of `chain3` (4 cells, 6 references): 4 constructor calls, 22 loop iterations, ≤ 340 hashed bytes with one
+hash per cell; 70 iterations at 4 hashes per cell = the bound `4n + 9e`; hashing without the cache would make
+`2^4 - 1 = 15` constructor calls -/
+example : buildSteps (fun _ => 1) chain3 = 22 ∧ buildBytes (fun _ => 1) chain3 = 340 ∧ buildSteps (fun _ => 4) chain3 = 70 ∧
+    4 * chain3.length + 9 * edges chain3 = 70 ∧ hashWork chain3 = 40 ∧ rehashCalls chain3 4 3 = 15 := by decide
+
 /-- a 14-byte bag claiming 255 cells over a 3-byte body: the cells loop stops after 2 iterations -/
 example : (bocCost [0xb5, 0xee, 0x9c, 0x72, 0x01, 0x01, 0xff, 0x01, 0x00, 0x03, 0x00, 0x00, 0x02, 0xaa]).loop1 = 2 := by decide
 /-- claiming 255 roots: rejected by the length check before any root is read -/
@@ -113,10 +205,36 @@ example : (bocCost [0xb5, 0xee, 0x9c, 0x72, 0x01, 0x01, 0x01, 0xff, 0x00, 0x03, 
 def sharedDict : DDag := [⟨[false, false], [], true⟩, ⟨[false, false], [0, 0], true⟩, ⟨[false, false], [1, 1], true⟩,
   ⟨[false, false], [2, 2], true⟩]
 example : dictCalls sharedDict 5 3 3 = .done 30 ∧ treeSize sharedDict 5 3 = 15 := by decide
+example : dictOut sharedDict 5 3 3 = (8, 0) ∧ dictParse sharedDict 5 3 3 = .done 30 := by decide
+example : ∀ nd ∈ sharedDict, nd.bits.length ≤ 2 := by decide
+
+/-- the same forks over a non-ordinary bottom cell: the result is EMPTY (0 entries) after the same 30 calls — 8 pruned
+edges.  With 30 forks instead of 3 (a bag of ≈ 250 bytes): 2^30 pruned edges, no output. -/
+def sharedPruned : DDag := [⟨[false, false], [], false⟩, ⟨[false, false], [0, 0], true⟩, ⟨[false, false], [1, 1], true⟩,
+  ⟨[false, false], [2, 2], true⟩]
+example : dictCalls sharedPruned 5 3 9 = .done 30 ∧ dictOut sharedPruned 5 3 9 = (0, 8) := by decide
+
+/-- `NoBareCycle` separates the two tables -/
+example : ¬ Tl.NoBareCycle cyclicTable 7 := by decide
+
+/-- the square is attained (up to the constant): `s v:(vector e) = S; e = E; b x:bytes = B;` — a vector of a bare type
+without fields passes the guard with `length ≤ remaining bytes` and iterates `length` times consuming nothing; a `bytes`
+field whose content is a row of `k` such 8-byte objects, the j-th declaring `8(k-1-j)` elements (= the bytes after it),
+is re-parsed at every 8th offset.  Doubling the input (48 → 88 → 168 bytes) quadruples the steps (176 → 751 → 3101);
+the bound of `c19_tl_total` for this table is `8·(len+1)²`. -/
+def quadTable : Tl.Table := [⟨[1, 0, 0, 0], [⟨none, .vec (some 1)⟩]⟩, ⟨[2, 0, 0, 0], []⟩, ⟨[3, 0, 0, 0], [⟨none, .bytes true⟩]⟩]
+def quadInput (k : Nat) : Bytes :=
+  [3, 0, 0, 0, 8 * k] ++ (List.range k).flatMap (fun j => [1, 0, 0, 0, 8 * (k - 1 - j), 0, 0, 0]) ++ [0, 0, 0]
+example : Tl.Ids4 quadTable ∧ Tl.NoBareCycle quadTable 1 ∧ Tl.tlK quadTable 1 = 8 := by decide
+example : (quadInput 5).length = 48 ∧ Tl.deser quadTable (Tl.tlFuel 1 48) (quadInput 5) none = .ok 48 176 := by decide +kernel
+example : (quadInput 10).length = 88 ∧ Tl.deser quadTable (Tl.tlFuel 1 88) (quadInput 10) none = .ok 88 751 := by decide +kernel
+example : (quadInput 20).length = 168 ∧ Tl.deser quadTable (Tl.tlFuel 1 168) (quadInput 20) none = .ok 168 3101 := by
+  decide +kernel
 
 /-- TL: one schema `a:(vector boxed)`; declared length 2^22 over 0 bytes is rejected by the guard in 2 steps -/
 def tlTable : Tl.Table := [⟨[1, 2, 3, 4], [⟨none, .vec none⟩]⟩]
 example : IdsNonempty tlTable := by intro s hs; simp [tlTable] at hs; subst hs; simp
+example : Tl.Ids4 tlTable ∧ Tl.NoBareCycle tlTable 0 := by decide
 example : Tl.deser tlTable 3 [1, 2, 3, 4, 0, 0, 64, 0] none = .raised 2 true := by decide
 
 end TonVerif.Properties.C19
